@@ -623,6 +623,7 @@ func (r *Reader) Seek(pos int) error {
 	}
 	r.pos = pos
 	r.err = nil // 清除之前的错误
+	r.elems = 0 // 切片元素预算按一次解码计：重新定位后从头计数，否则反复解码同一段数据会耗尽预算
 	return nil
 }
 
